@@ -269,6 +269,34 @@ def roots(ld, e, depth=0):
     return out
 
 
+def field_roots(ld, e, depth=0):
+    """Like roots(), but a root bound inside a struct pattern is named by the FIELD it binds
+    (`Instruction::Sub { left: l, .. }` -> 'left') and a function parameter by its position ('param#k').
+    Renaming locals therefore does not change the result."""
+    out = set()
+    if depth > 25 or not isinstance(e, (dict, list)):
+        return out
+    for n in hir.walk(e):
+        if n.get("k") == "path" and hir.res_local(n) is not None:
+            l = hir.res_local(n)
+            d = ld.get(l) if ld else None
+            if d is None:
+                out.add(n["res"]["name"])
+            elif d[1] is None or (d[2] and d[2][0] == "arm"):
+                path = d[2]
+                if path and path[0] == "param":
+                    out.add("param#%s" % "/".join(str(x) for x in path[1:]) if len(path) > 1 else "param:" + n["res"]["name"])
+                    out.discard("param:" + n["res"]["name"])
+                    out.add(n["res"]["name"] if n["res"]["name"] == "self" else "param:" + n["res"]["name"])
+                elif path and isinstance(path[-1], str) and path[-1] != "arm":
+                    out.add(path[-1])
+                else:
+                    out.add(n["res"]["name"])
+            else:
+                out |= field_roots(ld, d[1], depth + 1)
+    return out
+
+
 BUILDER_OPS = {
     "Instruction::Add": ({"iadd"}, {"fadd"}),
     "Instruction::Sub": ({"isub"}, {"fsub"}),
@@ -306,7 +334,7 @@ def rule_t2(F):
                 if got != (iops | fops):
                     r.bad(b.path, name, relfile(b.file), row["line"], "%s emits %s, expected %s" % (name, sorted(got), sorted(iops | fops)))
                 for c in calls:
-                    a = [roots(ld, x) - {"self"} for x in c["args"]]
+                    a = [field_roots(ld, x) - {"self"} for x in c["args"]]
                     if len(a) != 2 or a[0] != {"left"} or a[1] != {"right"}:
                         r.bad(b.path, "%s %s operand order" % (name, c["m"]), relfile(b.file), c["line"],
                               "%s(%s) does not pass (left, right) in order" % (c["m"], ", ".join(str(sorted(x)) for x in a)))
@@ -330,7 +358,7 @@ def rule_t2(F):
                             ops = {x["m"] for x in hir.nodes(rw2["body"], "mcall") if x["m"] in ALL_ARITH}
                             want = {"lit:True": {"sdiv", "srem"}, "lit:False": {"udiv", "urem"}}.get(rw2["alts"][0])
                             r.inst("codegen %s signed=%s" % (name, rw2["alts"][0]))
-                            sroots = roots(ld, m["e"])
+                            sroots = field_roots(ld, m["e"])
                             if sroots - {"self"} != {"signed"}:
                                 r.bad(b.path, name + " signed", relfile(b.file), m["line"], "signedness match is not on the instruction's `signed` field")
                             if want is not None and not ops <= want:
@@ -344,7 +372,7 @@ def rule_t2(F):
                         if len(cs) != 1:
                             r.bad(b.path, name, relfile(b.file), rw["line"], "%s arm does not call %s exactly once" % (name, fn))
                             continue
-                        a = [roots(ld, x) - {"self"} for x in cs[0]["args"]]
+                        a = [field_roots(ld, x) - {"self"} for x in cs[0]["args"]]
                         if a != [{"left"}, {"right"}, {"cmp"}]:
                             r.bad(b.path, name + " operand order", relfile(b.file), cs[0]["line"], "%s(%s): expected (left, right, cmp)" % (fn, a))
             # Not / Negate
@@ -357,7 +385,7 @@ def rule_t2(F):
                         if c["m"] == "icmp_imm":
                             cc = hir.result_desc(c["args"][0])
                             imm = [n.get("v") for n in hir.walk(c["args"][2]) if n.get("k") == "lit"]
-                            ok = bool(cc and cc.endswith("IntCC::Equal") and imm == [0] and roots(ld, c["args"][1]) - {"self"} == {"val"})
+                            ok = bool(cc and cc.endswith("IntCC::Equal") and imm == [0] and field_roots(ld, c["args"][1]) - {"self"} == {"val"})
                     if not ok:
                         r.bad(b.path, "Instruction::Not", relfile(b.file), rw["line"], "boolean not is expected to be icmp_imm(Equal, val, 0)")
                 if any(a.startswith("Instruction::Negate{") for a in rw["alts"]):
@@ -371,14 +399,19 @@ def rule_t2(F):
         if not b:
             continue
         ld = hir.LocalDefs(b.hir)
+        # the two operand parameters, by type and position (names do not matter)
+        ops = [p.get("name") for p in b.hir["params"] if p.get("ty") in ("mir::Var", "lir::Operand")]
+        if len(ops) != 2:
+            r.missing("two operand parameters of %s" % b.path)
+            continue
         for st in hir.nodes(b.hir["value"], "struct"):
             d = hir.res_def({"res": st["path"]}) or ""
             if "Instruction::" not in d:
                 continue
             fd = dict((f[0], f[1]) for f in st["fields"])
             if "left" in fd and "right" in fd:
-                lr = roots(ld, fd["left"]) - {"self"}
-                rr = roots(ld, fd["right"]) - {"self"}
+                lr = {"left" if x == ops[0] else "right" if x == ops[1] else x for x in roots(ld, fd["left"]) - {"self"}}
+                rr = {"left" if x == ops[0] else "right" if x == ops[1] else x for x in roots(ld, fd["right"]) - {"self"}}
                 key = "%s %s line-independent" % (hir.last(b.path), hir.tail2(d))
                 r.inst("%s|%s|%d" % (b.path, hir.tail2(d), len(r.instances)), {"fn": b.path, "instruction": hir.tail2(d), "left_from": sorted(lr), "right_from": sorted(rr)})
                 if lr != {"left"} or rr != {"right"}:
